@@ -4,12 +4,14 @@ package tcps
 
 import (
 	"context"
+	"encoding/json"
 	"errors"
 	"fmt"
 	"io"
 	"net"
 	"strconv"
 	"strings"
+	"sync"
 	"time"
 
 	lime "github.com/takenet/lime-go"
@@ -43,6 +45,7 @@ type Event struct {
 }
 
 type Case struct {
+	Mode string  `json:"mode,omitempty"` // "" = scripted connections; "loop-accept" / "loop-dial" = real sockets
 	N    int     `json:"n"`
 	Cfg  Cfg     `json:"cfg"`
 	Plan Plan    `json:"plan"`
@@ -55,6 +58,32 @@ type Result struct {
 	Match  bool    `json:"match"`
 	Actual []Event `json:"actual"`
 	Note   string  `json:"note,omitempty"`
+}
+
+// manualCtx is a context the scripted connection ends on cue, either as a
+// cancellation or as an expired deadline.
+type manualCtx struct {
+	mu   sync.Mutex
+	done chan struct{}
+	err  error
+}
+
+func newManualCtx() *manualCtx { return &manualCtx{done: make(chan struct{})} }
+func (c *manualCtx) Deadline() (time.Time, bool)       { return time.Time{}, false }
+func (c *manualCtx) Done() <-chan struct{}             { return c.done }
+func (c *manualCtx) Value(key interface{}) interface{} { return nil }
+func (c *manualCtx) Err() error {
+	c.mu.Lock()
+	defer c.mu.Unlock()
+	return c.err
+}
+func (c *manualCtx) end(err error) {
+	c.mu.Lock()
+	defer c.mu.Unlock()
+	if c.err == nil {
+		c.err = err
+		close(c.done)
+	}
 }
 
 type timeoutError struct{}
@@ -133,12 +162,13 @@ func (c *writeConn) SetWriteDeadline(t time.Time) error { return nil }
 
 // readConn serves a fixed byte stream according to a script of Read results.
 type readConn struct {
-	plan  []Step
-	data  []byte
-	pos   int
-	used  int
-	note  string
-	calls int
+	plan   []Step
+	data   []byte
+	pos    int
+	used   int
+	note   string
+	calls  int
+	cancel func() // ends the context of the Receive in progress
 }
 
 func (c *readConn) Read(p []byte) (int, error) {
@@ -167,6 +197,11 @@ func (c *readConn) Read(p []byte) (int, error) {
 	switch st.R {
 	case "timeout":
 		return 0, timeoutError{}
+	case "ctxend":
+		if c.cancel != nil {
+			c.cancel()
+		}
+		return 0, timeoutError{}
 	case "eof":
 		return 0, io.EOF
 	}
@@ -189,8 +224,37 @@ func (c *readConn) SetDeadline(t time.Time) error      { return nil }
 func (c *readConn) SetReadDeadline(t time.Time) error  { return nil }
 func (c *readConn) SetWriteDeadline(t time.Time) error { return nil }
 
-// envelope k: a notification whose JSON value is exactly size bytes long.
-func mkEnv(k, size int) (*lime.Notification, []byte, error) {
+// envelope k, exactly size bytes of JSON. From three units on it is a message
+// whose last unit is a nested object that is itself a valid envelope encoding:
+// a receiver that resynchronised there would fabricate envelope "F<k>".
+func mkEnv(k, size int) (interface{}, []byte, error) {
+	prefix := strconv.Itoa(k) + "-"
+	if size >= 96 {
+		build := func(pad string) *lime.Message {
+			m := &lime.Message{}
+			m.ID = prefix
+			doc := lime.JsonDocument{"a": pad, "z": map[string]interface{}{"id": "F" + strconv.Itoa(k%10), "event": "received"}}
+			m.Type = doc.MediaType()
+			m.Content = &doc
+			return m
+		}
+		base, err := json.Marshal(build(""))
+		if err != nil {
+			return nil, nil, err
+		}
+		if size < len(base) {
+			return nil, nil, fmt.Errorf("envelope size %d too small for the nested layout", size)
+		}
+		m := build(strings.Repeat("a", size-len(base)))
+		enc, err := json.Marshal(m)
+		if err != nil {
+			return nil, nil, err
+		}
+		if len(enc) != size {
+			return nil, nil, fmt.Errorf("size mismatch %d != %d", len(enc), size)
+		}
+		return m, append(enc, '\n'), nil
+	}
 	n := &lime.Notification{Event: lime.NotificationEventReceived}
 	n.ID = "x"
 	base, err := n.MarshalJSON()
@@ -198,7 +262,6 @@ func mkEnv(k, size int) (*lime.Notification, []byte, error) {
 		return nil, nil, err
 	}
 	pad := size - len(base) + 1
-	prefix := strconv.Itoa(k) + "-"
 	if pad < len(prefix) {
 		return nil, nil, fmt.Errorf("envelope size %d too small", size)
 	}
@@ -213,16 +276,31 @@ func mkEnv(k, size int) (*lime.Notification, []byte, error) {
 	return n, append(enc, '\n'), nil
 }
 
+func sendEnv(ctx context.Context, t lime.Transport, e interface{}) error {
+	switch v := e.(type) {
+	case *lime.Message:
+		return t.Send(ctx, v)
+	case *lime.Notification:
+		return t.Send(ctx, v)
+	}
+	return errors.New("unknown envelope")
+}
+
 func envOf(e interface{}) int {
-	n, ok := e.(*lime.Notification)
-	if !ok {
+	var id string
+	switch v := e.(type) {
+	case *lime.Notification:
+		id = v.ID
+	case *lime.Message:
+		id = v.ID
+	default:
 		return -1
 	}
-	i := strings.IndexByte(n.ID, '-')
+	i := strings.IndexByte(id, '-')
 	if i <= 0 {
 		return -1
 	}
-	k, err := strconv.Atoi(n.ID[:i])
+	k, err := strconv.Atoi(id[:i])
 	if err != nil {
 		return -1
 	}
@@ -237,16 +315,14 @@ func Replay(c Case) Result {
 	defer cancel()
 	wc := &writeConn{plan: append([]Step(nil), c.Plan.W...)}
 	snd := lime.VerifNewTCPTransport(wc, &lime.TCPConfig{}, false)
-	var envs []*lime.Notification
 	for k := 1; k <= len(c.Cfg.Lens); k++ {
 		n, enc, err := mkEnv(k, c.Cfg.U*c.Cfg.Lens[k-1])
 		if err != nil {
 			res.Note = err.Error()
 			return res
 		}
-		envs = append(envs, n)
 		wc.curEnv, wc.curEnc = k, enc
-		err = snd.Send(ctx, n)
+		err = sendEnv(ctx, snd, n)
 		if err == nil {
 			res.Actual = append(res.Actual, Event{K: "send", Env: k, Res: "ok", Segs: [][3]int{}})
 		} else {
@@ -265,14 +341,28 @@ func Replay(c Case) Result {
 	}
 	rc := &readConn{plan: append([]Step(nil), c.Plan.R...), data: wc.wire[:cut]}
 	rcv := lime.VerifNewTCPTransport(rc, &lime.TCPConfig{ReadLimit: int64(c.Cfg.L)}, true)
-	for i := 0; i < len(c.Cfg.Lens)+3; i++ {
+	failed := false
+	for i := 0; i < len(c.Cfg.Lens)+4; i++ {
 		rc.used = 0
-		e, err := rcv.Receive(ctx)
+		rctx := newManualCtx()
+		endWith := context.DeadlineExceeded
+		if c.N%2 == 1 {
+			endWith = context.Canceled
+		}
+		rc.cancel = func() { rctx.end(endWith) }
+		e, err := rcv.Receive(rctx)
 		if err != nil {
 			res.Actual = append(res.Actual, Event{K: "recv", Res: "err", Used: rc.used, Segs: [][3]int{}})
-			break
+			if failed {
+				break // the one retry after a failure
+			}
+			failed = true
+			continue
 		}
 		res.Actual = append(res.Actual, Event{K: "recv", Res: "ok", Env: envOf(e), Used: rc.used, Segs: [][3]int{}})
+		if failed {
+			break
+		}
 	}
 	res.Note += wc.note + rc.note
 	res.Match = same(c.Obs, res.Actual)
@@ -295,4 +385,117 @@ func same(a, b []Event) bool {
 		}
 	}
 	return true
+}
+
+// ReplayLoop runs one configuration over real loopback sockets, through the
+// constructors applications use (listener Accept and DialTcp): the raw peer
+// writes the whole stream, the transport receives until it fails. There is no
+// prediction; the recorded history is validated by the monitor alone.
+func ReplayLoop(c Case, dial bool) Result {
+	res := Result{N: c.N, Cfg: c.Cfg}
+	var stream []byte
+	var segs [][3]int
+	for k := 1; k <= len(c.Cfg.Lens); k++ {
+		_, enc, err := mkEnv(k, c.Cfg.U*c.Cfg.Lens[k-1])
+		if err != nil {
+			res.Note = err.Error()
+			return res
+		}
+		stream = append(stream, enc...)
+		segs = append(segs, [3]int{k, 0, len(enc)})
+		res.Actual = append(res.Actual, Event{K: "send", Env: k, Res: "ok", Segs: [][3]int{}})
+	}
+	res.Actual = append(res.Actual, Event{K: "wire", Segs: segs})
+	ctx, cancel := context.WithTimeout(context.Background(), 10*time.Second)
+	defer cancel()
+	cfg := &lime.TCPConfig{ReadLimit: int64(c.Cfg.L)}
+	var rcv lime.Transport
+	var raw net.Conn
+	if dial {
+		l, err := net.Listen("tcp", "127.0.0.1:0")
+		if err != nil {
+			res.Note = err.Error()
+			return res
+		}
+		defer l.Close()
+		acc := make(chan net.Conn, 1)
+		go func() {
+			cn, err := l.Accept()
+			if err == nil {
+				acc <- cn
+			}
+		}()
+		t, err := lime.DialTcp(ctx, l.Addr(), cfg)
+		if err != nil {
+			res.Note = err.Error()
+			return res
+		}
+		rcv = t
+		select {
+		case raw = <-acc:
+		case <-ctx.Done():
+			res.Note = "accept timeout"
+			return res
+		}
+	} else {
+		var lis lime.TransportListener
+		var addr *net.TCPAddr
+		var err error
+		for try := 0; try < 5; try++ {
+			pl, e := net.Listen("tcp", "127.0.0.1:0")
+			if e != nil {
+				res.Note = e.Error()
+				return res
+			}
+			addr = pl.Addr().(*net.TCPAddr)
+			pl.Close()
+			lis = lime.NewTCPTransportListener(cfg)
+			if err = lis.Listen(ctx, addr); err == nil {
+				break
+			}
+		}
+		if err != nil {
+			res.Note = err.Error()
+			return res
+		}
+		defer lis.Close()
+		raw, err = net.DialTimeout("tcp", addr.String(), 2*time.Second)
+		if err != nil {
+			res.Note = err.Error()
+			return res
+		}
+		rcv, err = lis.Accept(ctx)
+		if err != nil {
+			res.Note = err.Error()
+			return res
+		}
+	}
+	defer raw.Close()
+	go func() {
+		raw.Write(stream)
+		if tc, ok := raw.(*net.TCPConn); ok {
+			tc.CloseWrite()
+		}
+	}()
+	failed := false
+	for i := 0; i < len(c.Cfg.Lens)+4; i++ {
+		e, err := rcv.Receive(ctx)
+		if err != nil {
+			res.Actual = append(res.Actual, Event{K: "recv", Res: "err", Segs: [][3]int{}})
+			if failed {
+				break
+			}
+			failed = true
+			continue
+		}
+		res.Actual = append(res.Actual, Event{K: "recv", Res: "ok", Env: envOf(e), Segs: [][3]int{}})
+		if failed {
+			break
+		}
+	}
+	if rcv.Connected() {
+		rcv.Close()
+	}
+	res.Match = true
+	return res
 }
